@@ -1,5 +1,5 @@
 SPECIFICATION Spec
-CONSTANTS MaxSecs = 3 MaxOpts = 2 MaxMem = 2 MaxTop = 3 MaxDocs = 2 MaxSteps = 4 Mode = "gent"
+CONSTANTS MaxSecs = 3 MaxOpts = 2 MaxMem = 2 MaxTop = 3 MaxDocs = 2 MaxSteps = 3 Mode = "gent"
 VIEW SkelT
 ACTION_CONSTRAINT Emit
 PROPERTIES RefusedFrame BindExact GSetFrame FreshDoc
